@@ -1,5 +1,5 @@
 (* C03 — tainting never leaves fewer than min_nodes schedulable nodes.  Theorems only. *)
-From Esc Require Import Examples proofs.ScanTaint proofs.ScanRun proofs.ScanRunTheorems.
+From Esc Require Import Examples proofs.ScanTaint proofs.ScanRun proofs.ScanRunTheorems proofs.ScanExact.
 
 (* for every scan (node names of the view distinct): the nodes that receive the taint are distinct members of the
    view's untainted class; if any node is tainted, at least min_nodes of the nodes listed untainted remain so — neither
@@ -47,3 +47,11 @@ Proof. vm_compute. reflexivity. Qed.
 Theorem c03_run_once : forall s, wf_groups s -> wf_snapshot s = true -> for_groups check_C03_group s (run_journals s) = true.
 Proof. exact run_passes_C03. Qed.
 Print Assumptions c03_run_once.
+
+(* below the minimum the scan untaints first and requests exactly the rest (the exact-remainder and acted-on rules of C07/C06 in that situation) *)
+Theorem c03_recovery_requests_the_rest : forall now gdry api g a nodes pods,
+  let x := ctx_of now gdry api g a nodes pods in
+  NoDup (map n_name (x_nodes x)) ->
+  check_C03_recover x (r_calls (scan_of now gdry api g a nodes pods)) = true.
+Proof. exact group_passes_C03_recover. Qed.
+Print Assumptions c03_recovery_requests_the_rest.
